@@ -901,3 +901,20 @@ Example regular_bad_value : regular (Sc (Int 0)) = true /\ must_reject DPos fals
 Proof. vm_compute. split; reflexivity. Qed.
 Example regular_bad_inf : regular (Sc NegInf) = true /\ must_reject (DGe 0) false (Sc NegInf) = true.
 Proof. vm_compute. split; reflexivity. Qed.
+
+(* ---------------------------------------------------------------- per-point arrays *)
+Theorem array_routing_sound (t : list aentry) :
+  array_routing_ok t = true ->
+  (forall e, In e t -> exists rest, a_events e = AValidate :: rest) /\
+  (forall r, In r required_arrays -> exists e, In e t /\ amatches r e = true /\
+                                     exists rest, a_events e = AValidate :: rest).
+Proof.
+  unfold array_routing_ok. intros H. apply andb_prop in H as [H1 H2].
+  rewrite forallb_forall in H1, H2.
+  assert (A : forall e, In e t -> exists rest, a_events e = AValidate :: rest).
+  { intros e He. specialize (H1 e He). unfold aentry_ok in H1.
+    destruct (a_events e) as [|[|] rest]; try discriminate. now exists rest. }
+  split; [exact A|].
+  intros r Hr. specialize (H2 r Hr). apply existsb_exists in H2 as [e [He Hm]].
+  exists e. repeat split; try assumption. now apply A.
+Qed.
